@@ -2,7 +2,7 @@
 //! reply enum.  Everything here calls only public API of /repo's crates.
 
 use std::fmt::Debug;
-pub use refcodec::engine::{guarded, install_panic_hook, panic_signature, Outcome};
+pub use refcodec::engine::{clear_last_panic, guarded, install_panic_hook, panic_signature, take_last_panic, Outcome};
 use zvt::feig::packets as fp;
 use zvt::feig::sequences as fs;
 use zvt::packets as p;
